@@ -3,10 +3,6 @@
 // forward_ibig_ubig_binop_to_repr: quotient truncated towards 0 with sign sign0*sign1, remainder with the sign of
 // the dividend; division by zero panics -> `requires` non-zero divisor), add_ops.rs (+=, -= exact).
 
-/// truncating division: a == q*b + r, |r| < |b|, r == 0 or sign(r) == sign(a)
-pub open spec fn is_trunc_divrem(a: int, b: int, q: int, r: int) -> bool {
-    a == q * b + r && iabs(r) < iabs(b) && (r == 0 || (r > 0) == (a > 0))
-}
 /// THE quotient / remainder the library computes (`/`, `%` and `div_rem` agree with each other)
 pub uninterp spec fn tdiv(a: int, b: int) -> int;
 pub uninterp spec fn tmod(a: int, b: int) -> int;
@@ -58,22 +54,5 @@ impl<'l, 'r> RemSpecImpl<&'r UBig> for &'l IBig {
     open spec fn rem_req(self, rhs: &'r UBig) -> bool { rhs.v() != 0 }
     open spec fn rem_spec(self, rhs: &'r UBig) -> IBig { ibig_of(tmod(self.v(), rhs.v())) }
 }
-impl AddAssign<IBig> for IBig {
-    #[verifier::external_body]
-    fn add_assign(&mut self, rhs: IBig) { unimplemented!() }
-}
-impl AddAssignSpecImpl<IBig> for IBig {
-    open spec fn obeys_add_assign_spec() -> bool { true }
-    open spec fn add_assign_req(self, rhs: IBig) -> bool { true }
-    open spec fn add_assign_spec(self, rhs: IBig) -> IBig { ibig_of(self.v() + rhs.v()) }
-}
-impl SubAssign<IBig> for IBig {
-    #[verifier::external_body]
-    fn sub_assign(&mut self, rhs: IBig) { unimplemented!() }
-}
-impl SubAssignSpecImpl<IBig> for IBig {
-    open spec fn obeys_sub_assign_spec() -> bool { true }
-    open spec fn sub_assign_req(self, rhs: IBig) -> bool { true }
-    open spec fn sub_assign_spec(self, rhs: IBig) -> IBig { ibig_of(self.v() - rhs.v()) }
-}
+// (`+=` / `-=` on IBig: lib/round_int_addsub_stubs.rs)
 pub broadcast group round_ratio_axioms { ax_trunc_divrem, ubig_consts }
